@@ -76,6 +76,41 @@ func HarnessC20Describe(a []int) {
 	verifObserve("answered", res != nil)
 }
 
+func init() {
+	verifHarnesses["HarnessC20DescribeMany"] = HarnessC20DescribeMany
+}
+
+// HarnessC20DescribeMany: a = {n}: n unrelated frames arrive before the description response, all
+// well within the timeout: the response is still the result ("whatever else arrives on the socket").
+func HarnessC20DescribeMany(a []int) {
+	knxnet.VerifReset("udp")
+	want := &knxnet.DescriptionRes{}
+	go func() {
+		verifDaemon()
+		for i := 0; i < a[0]; i++ {
+			var f knxnet.Service
+			switch i % 3 {
+			case 0:
+				f = &knxnet.TunnelRes{}
+			case 1:
+				f = &knxnet.SearchRes{}
+			default:
+				f = &knxnet.ConnStateRes{}
+			}
+			knxnet.VerifInbound <- f
+			if i%8 == 7 {
+				verifSleep(int64(100 * time.Millisecond))
+			}
+		}
+		knxnet.VerifInbound <- want
+	}()
+	res, err := DescribeTunnel("192.0.2.1:3671", 5*time.Second)
+	verifAssert("C20.many.no_error", err == nil)
+	verifAssert("C20.many.description_response_found", res == want)
+	verifAssert("C20.many.socket_released", knxnet.VerifConnClosed() == 1 && knxnet.VerifConnWrites() == 1)
+	verifCover("C20.many.end")
+}
+
 // HarnessC20Discover: a = {K frames}.
 func HarnessC20Discover(a []int) {
 	knxnet.VerifReset("udp")
